@@ -3,6 +3,7 @@ package e2e
 import (
 	"bytes"
 	"fmt"
+	"github.com/rs/zerolog"
 	"io"
 	"net"
 	"net/http"
@@ -32,6 +33,8 @@ type trioOptions struct {
 	RuleSets func(upstreamHost string) []*rconfig.RuleSet
 	Only     []string // subset of entry points; nil = all
 	NoProbes bool
+	// Trace: heimdall logs on trace level (into the void): code paths that only run when tracing is on are executed
+	Trace bool
 }
 
 func has(list []string, s string) bool {
@@ -62,6 +65,10 @@ func newTrio(o trioOptions) (*trio, error) {
 		}}
 		if !o.NoProbes {
 			opts.Probes = t.Probes
+		}
+		if o.Trace {
+			lg := zerolog.New(io.Discard).Level(zerolog.TraceLevel)
+			opts.Logger = &lg
 		}
 		a, err := app.New(opts)
 		if err != nil {
